@@ -449,12 +449,16 @@ func check14(c *Case, o *Obs, rec Rec) (vs []viol, inconclusive string) {
 				if o.TrailersOnly {
 					continue // one header block carries both sets: the key is ambiguous
 				}
-				if obsName == "trailer" {
-					kc = "key-in-header-and-trailer"
+				if obsName == "header" && c.Target == "proxy" {
+					continue // a relayed back-end trailer may legitimately show under this key
+				}
+				kc = "key-in-header-and-trailer"
+				if obsName == "header" {
+					kc += "," + how
 				}
 			}
 			vc := kc + "," + kvClass(kv)
-			if sc.Mutate != "" {
+			if sc.Mutate != "" || sameKey[kv.K] {
 				vc = kc
 			}
 			vals, ok := view[kv.K]
